@@ -166,6 +166,46 @@ func c12CheckDecoded(rec *c12Rec, op, class, lenClass string, m *ref.EBP, got eb
 	if !bytes.Equal(out, in) {
 		bad("reencode-bytes-differ", "Data() = %d bytes % x", len(out), c12Head(out, 40))
 	}
+	// encoding must not change what the object reports ...
+	if s := got.StreamSyncSignal(); s != m.StreamSync() {
+		bad("getter-StreamSyncSignal-after-Data", "after Data(): StreamSyncSignal() = %#x, want %#x (grouping ids % x)", s, m.StreamSync(), m.Grouping)
+	}
+	if m.GroupFlag {
+		var g2 []byte
+		if m.Tag == ref.EBPTagCableLabs {
+			proto := ebp.CreateCableLabsEbp()
+			if o, ok := c12As(got, &proto); ok {
+				g2 = o.Grouping
+			}
+		} else {
+			proto := ebp.CreateComcastEBP()
+			if o, ok := c12As(got, &proto); ok {
+				g2 = o.Grouping
+			}
+		}
+		if !bytes.Equal(g2, m.Grouping) {
+			bad("field-Grouping-after-Data", "after Data(): Grouping = % x, encoded ids % x", g2, m.Grouping)
+		}
+	}
+	// ... and the bytes it returned must stay what they were when another EBP is encoded afterwards
+	keep := append([]byte{}, out...)
+	other := ebp.CreateComcastEBP()
+	other.SetFragmentFlag(true)
+	other.SetTimeFlag(true)
+	other.SetSapFlag(true)
+	other.SetSap(0xEE)
+	other.ReservedBytes = []byte{0xEE, 0xEE, 0xEE, 0xEE, 0xEE, 0xEE, 0xEE, 0xEE}
+	_ = other.Data()
+	oc := ebp.CreateCableLabsEbp()
+	oc.SetSegmentFlag(true)
+	oc.ReservedBytes = []byte{0xDD, 0xDD, 0xDD, 0xDD, 0xDD, 0xDD, 0xDD, 0xDD, 0xDD, 0xDD, 0xDD, 0xDD}
+	_ = oc.Data()
+	if !bytes.Equal(out, keep) {
+		bad("encoded-bytes-changed-by-a-later-encode", "the slice returned by Data() changed when another EBP was encoded afterwards: % x -> % x", c12Head(keep, 24), c12Head(out, 24))
+	}
+	if again := got.Data(); !bytes.Equal(again, in) {
+		bad("reencode-bytes-differ-second-call", "second Data() = %d bytes % x", len(again), c12Head(again, 40))
+	}
 }
 
 func c12Head(b []byte, n int) []byte {
